@@ -2,7 +2,7 @@
    for the trace conformance check of C09 / C10.  ExtrOcamlBasic only. *)
 From Coq Require Import ExtrOcamlBasic List NArith.
 From Coq.Strings Require Import Byte.
-From GM Require Import Codec.Packet Session.Ids Session.Store Client.Future Client.Client Client.TraceScan.
+From GM Require Import Codec.Packet Session.Ids Session.Store Client.Future Client.Client Client.TraceScan Client.Tracker.
 Extraction Language OCaml.
 Separate Extraction
   Datatypes.length
@@ -12,4 +12,5 @@ Separate Extraction
   Client.pending_futures Client.ended Client.store_before_send_ok Client.truthful_ok Client.fut_truthful
   Future.session_present Future.return_code Future.return_codes
   TraceScan.scan_sbs TraceScan.scan_pubrec TraceScan.unresolved
-  TraceScan.hs_step TraceScan.scan_hs TraceScan.hs_twice TraceScan.ack_step TraceScan.scan_ack TraceScan.scan_noack.
+  TraceScan.hs_step TraceScan.scan_hs TraceScan.hs_twice TraceScan.ack_step TraceScan.scan_ack TraceScan.scan_noack TraceScan.order_step TraceScan.scan_order
+  Tracker.tk_new Tracker.tk_reset Tracker.tk_window Tracker.tk_ping Tracker.tk_pong Tracker.tk_pending Tracker.pinger_decide.
